@@ -78,9 +78,12 @@ def build_coq(targets=None, timeout=3000):
     """make the Coq development (full .vo build). Returns (ok, log)."""
     mk = os.path.join(COQ, 'Makefile.coq')
     proj = os.path.join(COQ, '_CoqProject')
-    if not os.path.exists(mk) or os.path.getmtime(mk) < os.path.getmtime(proj):
+    stamp = mk + '.project'
+    cur = open(proj).read()
+    if not os.path.exists(mk) or not os.path.exists(stamp) or open(stamp).read() != cur:
         r = sh(['coq_makefile', '-f', '_CoqProject', '-o', 'Makefile.coq'], cwd=COQ)
         if r.returncode != 0: return False, r.stdout
+        open(stamp, 'w').write(cur)
     cmd = ['timeout', str(timeout), 'make', '-f', 'Makefile.coq', '-j16', '-k'] + (targets or [])
     r = sh(cmd, cwd=COQ)
     return r.returncode == 0, r.stdout
